@@ -110,7 +110,9 @@ fn note_request(n: &Value, docs: &[String]) -> Result<(Request, usize), String> 
             .params(json!({"textDocument": {"uri": uri, "languageId": "incan", "version": a[2], "text": a[3]}}))
             .finish(),
         "change" => Request::build("textDocument/didChange")
-            .params(json!({"textDocument": {"uri": uri, "version": a[2]}, "contentChanges": [{"text": a[3]}]}))
+            .params(json!({"textDocument": {"uri": uri, "version": a[2]}, "contentChanges":
+                // a[3]: one full text, or a list of full texts (several / zero content changes in one notification)
+                match a[3].as_array() { Some(ts) => ts.iter().map(|t| json!({"text": t})).collect::<Vec<_>>(), None => vec![json!({"text": a[3]})] }}))
             .finish(),
         "close" => Request::build("textDocument/didClose")
             .params(json!({"textDocument": {"uri": uri}}))
@@ -181,6 +183,47 @@ async fn hover_all(
             std::task::Poll::Ready(None) => out.push(Value::Null),
             std::task::Poll::Pending => out.push(json!("<blocked>")),
         }
+    }
+    out
+}
+
+/// What definition and completion answer for every watched document: [definition start line | null,
+/// sorted completion labels that are document symbols (f<digits> / K<digits>) | null].
+async fn answers_all(
+    service: &mut LspService<incan::lsp::IncanLanguageServer>,
+    docs: &[String],
+    pos: &Value,
+) -> Vec<Value> {
+    let mut out = Vec::new();
+    for (i, uri) in docs.iter().enumerate() {
+        let mut pair = Vec::new();
+        for method in ["textDocument/definition", "textDocument/completion"] {
+            let req = Request::build(method)
+                .id(2000 + i as i64)
+                .params(json!({"textDocument": {"uri": uri}, "position": {"line": pos[0], "character": pos[1]}}))
+                .finish();
+            let mut fut: Fut = Box::pin(tokio::task::unconstrained(call(service, req)));
+            let v = match futures_util::poll!(fut.as_mut()) {
+                std::task::Poll::Ready(Some(resp)) => resp.into_parts().1.unwrap_or(Value::Null),
+                std::task::Poll::Ready(None) => Value::Null,
+                std::task::Poll::Pending => json!("<blocked>"),
+            };
+            if method.ends_with("definition") {
+                pair.push(v.get("range").map(|r| r["start"]["line"].clone()).unwrap_or(if v.is_null() { Value::Null } else { v.clone() }));
+            } else if let Some(items) = v.as_array() {
+                let mut labels: Vec<String> = items
+                    .iter()
+                    .filter_map(|it| it["label"].as_str())
+                    .filter(|l| l.len() > 1 && (l.starts_with('f') || l.starts_with('K')) && l[1..].chars().all(|c| c.is_ascii_digit()))
+                    .map(String::from)
+                    .collect();
+                labels.sort();
+                pair.push(json!(labels));
+            } else {
+                pair.push(v);
+            }
+        }
+        out.push(json!(pair));
     }
     out
 }
@@ -304,6 +347,11 @@ async fn run_case(case: &Value) -> Value {
             (None, _) => Value::Null,
         };
         let mut entry = json!({"docs": docs_json, "lock": if lock < 0 { Value::Null } else { json!(lock) }, "npubs": pubs.len(), "done": done});
+        if gates::ON && !natural && lock != 2 {
+            // requests answered BETWEEN notifications: they must come from the document stored right now
+            entry["hover"] = json!(hover_all(&mut service, &docs, &case["hover"]).await);
+            entry["answers"] = json!(answers_all(&mut service, &docs, &case["hover"]).await);
+        }
         if !gates::ON && done && !natural {
             // without the accessor the stored text is observed through hover (lock is free here)
             entry["hover"] = json!(hover_all(&mut service, &docs, &case["hover"]).await);
@@ -315,10 +363,11 @@ async fn run_case(case: &Value) -> Value {
         drain(&mut socket, &docs, &mut pubs).await;
     }
     let hover = if quiescent { json!(hover_all(&mut service, &docs, &case["hover"]).await) } else { Value::Null };
+    let answers = if quiescent { json!(answers_all(&mut service, &docs, &case["hover"]).await) } else { Value::Null };
     drop(handlers);
     gates::reset();
     json!({"gates": gates::ON, "legal": legal, "quiescent": quiescent, "blocked_at": blocked_at, "trace": trace,
-           "pubs": pubs, "hover": hover, "error": error})
+           "pubs": pubs, "hover": hover, "answers": answers, "error": error})
 }
 
 pub fn run(_args: &[String]) {
